@@ -21,6 +21,10 @@ from k2 import UserError, err_id
 from lib import gz, glist
 
 
+class SubscriberError(Exception):
+    """raised by the logging subscriber's terminal callbacks when asked to"""
+
+
 class Env:
     def __init__(self):
         self.now = 0            # virtual clock, integer milliseconds
@@ -125,7 +129,7 @@ def make_scheduler(env):
 
 
 def run_multi(build, n_static, events, use_scheduler=False, dispose_at=None, horizon=None, warmup=None,
-              after_warmup=None):
+              after_warmup=None, subscriber_raises=False):
     """events: list of (time_ms, k, ev) source notifications (time non-decreasing).
     dispose_at: time_ms at which the subscriber disposes (after events at that time).
     Returns dict(log, inputs) where inputs is the delivered input sequence
@@ -168,11 +172,17 @@ def run_multi(build, n_static, events, use_scheduler=False, dispose_at=None, hor
 
     def on_error(e):
         env.log.append((env.tag, "emit", "E", e))
+        if subscriber_raises:
+            raise SubscriberError()
 
     def on_completed():
         env.log.append((env.tag, "emit", "C", None))
+        if subscriber_raises:
+            raise SubscriberError()
     try:
         sub = obs.subscribe(on_next, on_error, on_completed, scheduler=sched)
+    except SubscriberError:
+        sub = None
     except Exception as e:
         env.escapes.append((0, e))
         sub = None
@@ -210,6 +220,8 @@ def run_multi(build, n_static, events, use_scheduler=False, dispose_at=None, hor
                 inputs.append((env.now, ("dispose",)))
                 if sub is not None:
                     sub.dispose()
+        except SubscriberError:
+            pass        # the subscriber's own terminal callback raised: expected to reach the emitter
         except Exception as e:
             env.escapes.append((env.tag, e))
         if len(inputs) > 400:
